@@ -27,10 +27,10 @@ ASSUMPTIONS = [
 
 
 def check(ctx):
-    sched_rel.check_rel(ctx, {'REL-1a'})
-    sched_rel.check_enq(ctx)
-    sched_rel.check_lock(ctx)
-    sched_worker.check_pub(ctx)
+    ctx.run(sched_rel.check_rel, {'REL-1a'})
+    ctx.run(sched_rel.check_enq)
+    ctx.run(sched_rel.check_lock)
+    ctx.run(sched_worker.check_pub)
 
 
 from ..variants import sched as _v   # noqa: E402
